@@ -660,6 +660,28 @@ impl JusticeOracle {
 		self.stats.balance_checks += 1;
 		self.stats.max_revoked_balances = self.stats.max_revoked_balances.max(got.len());
 		if got != want {
+			// discriminate one mechanism: the balance of X's still unclaimed to_local output disappears while some
+			// not yet buried claim transaction of V has an input with the same output *index* on another
+			// transaction (a second-stage transaction of X)
+			if let Some(tl) = self.tk.to_local {
+				let tl_val = self.tk.tx.output[tl as usize].value.to_sat();
+				let mut rest = want.clone();
+				let only_to_local_missing = match rest.iter().position(|x| *x == tl_val) {
+					Some(p) => {
+						rest.remove(p);
+						rest == got
+					},
+					None => false,
+				};
+				let tl_open = self.statuses(sim, hv).iter().any(|(op, _, s)| op.vout == tl && op.txid == self.tk.txid && matches!(s, Status::Open(_)));
+				let collision = self.v_txs.iter().any(|j| {
+					let conf = sim.chain.confirmed.get(&j.compute_txid()).map(|(_, h)| *h);
+					matches!(conf, Some(h) if h <= hv && hv + 1 - h < lightning::chain::channelmonitor::ANTI_REORG_DELAY) && j.input.iter().any(|i| i.previous_output.vout == tl && i.previous_output.txid != self.tk.txid)
+				});
+				if only_to_local_missing && tl_open && collision {
+					return Err(fail("revoked-balances", format!("at V height {}: the CounterpartyRevokedOutputClaimable for X's unclaimed to_local output {}:{} ({} sat) is not reported while an unburied claim of V spends output index {} of another transaction; reported {:?}, unresolved {:?}", hv, self.tk.txid, tl, tl_val, tl, got, want)).with_key("revoked-balances/to-local-hidden-by-vout-collision"));
+				}
+			}
 			let key = if got.len() < want.len() { "revoked-balances/missing" } else if got.len() > want.len() { "revoked-balances/extra" } else { "revoked-balances/amount" };
 			return Err(fail("revoked-balances", format!("at V height {}: CounterpartyRevokedOutputClaimable amounts {:?}, unresolved revoked outputs {:?}; statuses {:?}; all balances {:?}", hv, got, want, self.statuses(sim, hv), bals)).with_key(key));
 		}
